@@ -431,6 +431,13 @@ unsafe fn pack_fds(fds: *mut libc::pollfd, n: libc::nfds_t) -> (i64, i64) {
     (pf as i64, pr as i64)
 }
 
+/// threads of this process that sit in poll(-1) on an empty descriptor set
+pub static EMPTY_WAITS: [std::sync::atomic::AtomicI32; 8] = [const { std::sync::atomic::AtomicI32::new(0) }; 8];
+
+pub fn in_empty_wait(tid: i32) -> bool {
+    tid != 0 && EMPTY_WAITS.iter().any(|s| s.load(std::sync::atomic::Ordering::SeqCst) == tid)
+}
+
 #[no_mangle]
 pub unsafe extern "C" fn poll(fds: *mut libc::pollfd, n: libc::nfds_t, timeout: c_int) -> c_int {
     let on = ilog::active();
@@ -444,7 +451,32 @@ pub unsafe extern "C" fn poll(fds: *mut libc::pollfd, n: libc::nfds_t, timeout: 
         return -1;
     }
     let r;
-    if vclock::pure() && timeout < 0 {
+    if timeout < 0 && (0..n as usize).all(|i| (*fds.add(i)).fd < 0) {
+        // a wait without a timeout on an empty descriptor set: nothing but a signal can ever end it.  The thread is marked
+        // (the wait-for graph shows it as a node that cannot proceed) and sleeps in slices, so that the watchdog can end
+        // the call once the verdict is recorded
+        let tid = crate::rsys!(libc::SYS_gettid) as i32;
+        let slot = EMPTY_WAITS.iter().find(|s| s.compare_exchange(0, tid, std::sync::atomic::Ordering::SeqCst, std::sync::atomic::Ordering::SeqCst).is_ok());
+        let gen = crate::watch::RELEASE_GEN.load(std::sync::atomic::Ordering::SeqCst);
+        let mut rr;
+        loop {
+            rr = r_poll()(fds, n, 50);
+            if rr != 0 {
+                break;
+            }
+            if crate::watch::RELEASE_GEN.load(std::sync::atomic::Ordering::SeqCst) != gen {
+                set_errno(plan::ABORT_ERRNO);
+                rr = -1;
+                break;
+            }
+        }
+        let e = errno();
+        if let Some(s) = slot {
+            s.store(0, std::sync::atomic::Ordering::SeqCst);
+        }
+        set_errno(e);
+        r = rr;
+    } else if vclock::pure() && timeout < 0 {
         // a wait without a timeout: if nothing is ready it sleeps for as long as it takes, and the virtual clock is charged
         let r0 = r_poll()(fds, n, 0);
         if r0 != 0 {
